@@ -30,7 +30,14 @@ pub enum Ev {
     View { t: u64, node: u8, members: Vec<u8> },
     /// node `from` re-sends the n-th issued mutation (in issue order) to every other node
     #[serde(rename = "replay")]
-    Replay { t: u64, from: u8, nth: usize },
+    Replay {
+        t: u64,
+        from: u8,
+        nth: usize,
+        /// over a connection of its own instead of the node's cached channel (a peer that re-dials)
+        #[serde(default)]
+        fresh: bool,
+    },
     #[serde(rename = "clock_jump")]
     ClockJump { t: u64, node: u8, delta_ms: i64 },
     /// the node stops and comes back on its other IP address (same storage and node id); peers
@@ -77,6 +84,70 @@ pub struct RunResult {
     pub views_hist: BTreeMap<u8, Vec<(u64, BTreeSet<u8>)>>,
     /// per node: set/store disagreements at the final quiescent point
     pub set_store_diffs: BTreeMap<u8, Vec<String>>,
+    /// real-membership mode: at quiescent points, where a subscriber's added-up deltas differ from
+    /// the membership layer's own view
+    pub membership_diffs: Vec<String>,
+}
+
+/// real-membership mode: (node -> ids the membership layer reports, with addresses)
+fn layer_views(cl: &Cluster) -> BTreeMap<u8, BTreeMap<u8, SocketAddr>> {
+    let sh = cl.shared.borrow();
+    sh.member_rx.iter().filter(|(n, _)| sh.up.contains(n)).map(|(n, rx)| (*n, rx.borrow().iter().map(|(id, m)| (*id, m.public_addr)).collect())).collect()
+}
+
+/// real-membership mode: steps until every running node's membership layer reports exactly the
+/// running nodes at their current addresses (bounded); true if reached
+fn wait_membership_complete(cl: &mut Cluster, bound_ms: u64) -> Result<bool, String> {
+    let deadline = cl.elapsed_ms() + bound_ms;
+    loop {
+        let want: BTreeMap<u8, SocketAddr> = {
+            let sh = cl.shared.borrow();
+            sh.up.iter().filter_map(|n| sh.addrs.get(n).map(|a| (*n, *a))).collect()
+        };
+        let views = layer_views(cl);
+        if views.len() == want.len() && views.values().all(|v| *v == want) {
+            return Ok(true);
+        }
+        if cl.elapsed_ms() >= deadline {
+            return Ok(false);
+        }
+        let t = cl.elapsed_ms();
+        cl.run_until(t + 250).map_err(|e| format!("simulation error: {e}"))?;
+    }
+}
+
+/// real-membership mode, C16's oracle: once the membership layer's views have not moved for two
+/// simulated seconds, what a subscriber added up must equal the layer's view minus the node itself
+fn membership_sums(cl: &mut Cluster, when: &str, out: &mut Outcome) -> Result<Vec<String>, String> {
+    let mut last = layer_views(cl);
+    let mut stable_since = cl.elapsed_ms();
+    let deadline = cl.elapsed_ms() + 30_000;
+    while cl.elapsed_ms() < stable_since + 2_000 {
+        if cl.elapsed_ms() >= deadline {
+            out.probe("membership_never_quiescent_not_judged");
+            return Ok(vec![]);
+        }
+        let t = cl.elapsed_ms();
+        cl.run_until(t + 100).map_err(|e| format!("simulation error: {e}"))?;
+        let now = layer_views(cl);
+        if now != last {
+            last = now;
+            stable_since = cl.elapsed_ms();
+        }
+    }
+    let mut diffs = Vec::new();
+    let sh = cl.shared.borrow();
+    for (n, view) in &last {
+        let mut others = view.clone();
+        others.remove(n);
+        let Some(sub) = sh.subscribed.get(n) else { continue };
+        if *sub != others {
+            diffs.push(format!("{when}: node {n}: the membership layer reports {:?}, the subscriber's changes add up to {:?}", others, sub));
+        }
+    }
+    drop(sh);
+    out.probe("membership_sum_checked_at_quiescence");
+    Ok(diffs)
 }
 
 fn validate(sc: &Scenario) -> Result<(), String> {
@@ -121,11 +192,22 @@ pub fn run_cluster(sc: &Scenario, prop: &str) -> Result<RunResult, String> {
     let full: BTreeSet<u8> = ids.iter().copied().collect();
     let step = |cl: &mut Cluster, t: u64| cl.run_until(t).map_err(|e| format!("simulation error: {e}"));
 
+    let real = sc.cfg.real_membership;
+    let mut membership_diffs: Vec<String> = Vec::new();
     step(&mut cl, BOOT_MS)?;
-    for n in &ids {
-        cl.set_view(*n, &full);
+    if real {
+        // the cluster forms by gossip
+        if !wait_membership_complete(&mut cl, 60_000)? {
+            out.probe("real_membership_did_not_form_in_60s");
+        }
+        let t = cl.elapsed_ms();
+        step(&mut cl, (t / 1000 + 1) * 1000)?;
+    } else {
+        for n in &ids {
+            cl.set_view(*n, &full);
+        }
+        step(&mut cl, BOOT_MS + 100)?;
     }
-    step(&mut cl, BOOT_MS + 100)?;
 
     let mut evs: Vec<(usize, &Ev)> = sc.events.iter().enumerate().collect();
     evs.sort_by_key(|(i, e)| (e.t(), *i));
@@ -133,7 +215,7 @@ pub fn run_cluster(sc: &Scenario, prop: &str) -> Result<RunResult, String> {
     let mut crashed: BTreeSet<u8> = BTreeSet::new();
     let mut ever_restarted: BTreeSet<u8> = BTreeSet::new();
     let mut next_op = 0usize;
-    let t0 = BOOT_MS + 100;
+    let t0 = if real { cl.elapsed_ms() } else { BOOT_MS + 100 };
     for (_, ev) in evs {
         step(&mut cl, t0 + ev.t())?;
         match ev {
@@ -171,6 +253,7 @@ pub fn run_cluster(sc: &Scenario, prop: &str) -> Result<RunResult, String> {
                     out.fault("node_restart");
                 }
             },
+            Ev::View { .. } if real => {},
             Ev::View { node, members, .. } => {
                 let m: BTreeSet<u8> = members.iter().copied().collect();
                 if m.len() + 1 < full.len() || (!m.contains(node) && m.len() < full.len() - 1) {
@@ -178,7 +261,7 @@ pub fn run_cluster(sc: &Scenario, prop: &str) -> Result<RunResult, String> {
                 }
                 cl.set_view(*node, &m);
             },
-            Ev::Replay { from, nth, .. } => {
+            Ev::Replay { from, nth, fresh, .. } => {
                 let issued = issued_ops(&cl.shared.borrow());
                 if let Some(i) = issued.get(*nth % issued.len().max(1)) {
                     let origin = i.ts.node();
@@ -187,7 +270,7 @@ pub fn run_cluster(sc: &Scenario, prop: &str) -> Result<RunResult, String> {
                     let holds = |n: u8| cl.shared.borrow().stores.get(&n).map(|s| s.st.lock().rows.get(&i.ks).and_then(|m| m.get(&i.id)).map(|r| r.ts >= i.ts).unwrap_or(false)).unwrap_or(false);
                     let from = if holds(*from) { *from } else { origin };
                     let from = &from;
-                    if cl.send_cmd(*from, Cmd::Replay { ks: i.ks.clone(), id: i.id, ts: i.ts, data: i.data.clone(), origin }) {
+                    if cl.send_cmd(*from, Cmd::Replay { ks: i.ks.clone(), id: i.id, ts: i.ts, data: i.data.clone(), origin, fresh: *fresh }) {
                         out.fault("replayed_replication_message");
                     }
                 }
@@ -222,7 +305,7 @@ pub fn run_cluster(sc: &Scenario, prop: &str) -> Result<RunResult, String> {
     let t = cl.elapsed_ms();
     step(&mut cl, t + 300)?;
     // restarted nodes are announced as left, then joined (what makes peers drop dead channels)
-    if !ever_restarted.is_empty() {
+    if !ever_restarted.is_empty() && !real {
         for n in &ids {
             let v: BTreeSet<u8> = full.iter().copied().filter(|x| !ever_restarted.contains(x) || x == n).collect();
             cl.set_view(*n, &v);
@@ -230,8 +313,10 @@ pub fn run_cluster(sc: &Scenario, prop: &str) -> Result<RunResult, String> {
         let t = cl.elapsed_ms();
         step(&mut cl, t + 100)?;
     }
-    for n in &ids {
-        cl.set_view(*n, &full);
+    if !real {
+        for n in &ids {
+            cl.set_view(*n, &full);
+        }
     }
     // wait for every operation to return (bounded), plus the settle time
     let deadline = cl.elapsed_ms() + 40_000;
@@ -251,7 +336,23 @@ pub fn run_cluster(sc: &Scenario, prop: &str) -> Result<RunResult, String> {
 
     // ---- closing phase: every node completes an exchange with every other node ----
     let mut incomplete: Vec<String> = Vec::new();
-    if sc.closing_mode == "background" {
+    let mut closing_mode = sc.closing_mode.clone();
+    if real {
+        // the gossip layer has to re-admit everybody first (bounded); the subscriber oracle is
+        // evaluated once its views stopped moving
+        let complete = wait_membership_complete(&mut cl, 240_000)?;
+        membership_diffs.extend(membership_sums(&mut cl, "after the faults stopped", &mut out)?);
+        if complete {
+            out.probe("real_membership_complete_after_faults");
+            closing_mode = "background".into();
+        } else {
+            // peers the gossip layer does not re-admit are not polled: the exchanges are then
+            // driven explicitly (the property presupposes them)
+            out.probe("real_membership_incomplete_after_faults");
+            closing_mode = "explicit".into();
+        }
+    }
+    if closing_mode == "background" {
         if sc.cfg.repair_interval_ms > 10_000 {
             return Err("background closing needs a running poller (repair interval <= 10 s)".into());
         }
@@ -331,6 +432,18 @@ pub fn run_cluster(sc: &Scenario, prop: &str) -> Result<RunResult, String> {
     if !incomplete.is_empty() {
         out.violate(format!("{prop}/closing-repair-exchange-does-not-complete"), incomplete.join("; "));
     }
+    // every node compares its keyspace sets with its store (C02's oracle, at quiescence)
+    let up_now: Vec<u8> = cl.shared.borrow().up.iter().copied().collect();
+    for n in &up_now {
+        cl.send_cmd(*n, Cmd::Snapshot { snap_id: 1 });
+    }
+    let t = cl.elapsed_ms();
+    step(&mut cl, t + 300)?;
+    let answered = cl.shared.borrow().snapshots.keys().filter(|(s, _)| *s == 1).count();
+    out.probe_n("set_store_snapshots_taken", answered as u64);
+    if answered < up_now.len() {
+        out.probe_n("set_store_snapshot_unanswered", (up_now.len() - answered) as u64);
+    }
 
     // ---- collect ----
     let sh = cl.shared.borrow();
@@ -381,7 +494,7 @@ pub fn run_cluster(sc: &Scenario, prop: &str) -> Result<RunResult, String> {
     let cfg = sc.cfg.clone();
     drop(sh);
     drop(cl);
-    Ok(RunResult { out, ops, issued, final_rows, cfg, views_hist, set_store_diffs })
+    Ok(RunResult { out, ops, issued, final_rows, cfg, views_hist, set_store_diffs, membership_diffs })
 }
 
 /// The C01 oracle.
@@ -468,6 +581,7 @@ pub fn gen_cluster_scenario(rng: &mut rand::rngs::SmallRng, k: &GenKnobs) -> Sce
             skew_ms: if skewed { rng.gen_range(-600_000..600_000) } else { 0 },
             storage_faults: if rng.gen_bool(0.15) { vec![(rng.gen_range(1..20), rng.gen_range(0..3))] } else { vec![] },
             storage_latency_max_ms: if rng.gen_bool(0.3) { rng.gen_range(1..30) } else { 0 },
+            storage_scan_latency_max_ms: 0,
         })
         .collect();
     let explicit_only = rng.gen_bool(0.5);
@@ -490,6 +604,7 @@ pub fn gen_cluster_scenario(rng: &mut rand::rngs::SmallRng, k: &GenKnobs) -> Sce
         repair_interval_ms: if explicit_only { 3_600_000 } else { rng.gen_range(1_000..6_000) },
         jitter_sites,
         hook_seed: rng.gen(),
+        real_membership: false,
     };
     let ids: Vec<u8> = cfg.nodes.iter().map(|n| n.id).collect();
     let kss: Vec<String> = (0..rng.gen_range(1..=3)).map(|i| format!("ks{i}")).collect();
@@ -567,7 +682,7 @@ pub fn gen_cluster_scenario(rng: &mut rand::rngs::SmallRng, k: &GenKnobs) -> Sce
     }
     if f_replay {
         for _ in 0..rng.gen_range(1..=5) {
-            events.push(Ev::Replay { t: rng.gen_range(300..span + 2_000), from: *ids.choose(rng).unwrap(), nth: rng.gen_range(0..64) });
+            events.push(Ev::Replay { t: rng.gen_range(300..span + 2_000), from: *ids.choose(rng).unwrap(), nth: rng.gen_range(0..64), fresh: false });
         }
     }
     if rng.gen_bool(0.2) {
@@ -597,7 +712,7 @@ pub fn gen_cluster_scenario(rng: &mut rand::rngs::SmallRng, k: &GenKnobs) -> Sce
 pub fn gen_burst_scenario(rng: &mut rand::rngs::SmallRng) -> Scenario {
     let n = rng.gen_range(2..=3usize);
     let nodes: Vec<NodeCfg> = (1..=n as u8)
-        .map(|id| NodeCfg { id, dc: "dc0".into(), skew_ms: if rng.gen_bool(0.3) { rng.gen_range(-60_000..60_000) } else { 0 }, storage_faults: vec![], storage_latency_max_ms: rng.gen_range(3..40) })
+        .map(|id| NodeCfg { id, dc: "dc0".into(), skew_ms: if rng.gen_bool(0.3) { rng.gen_range(-60_000..60_000) } else { 0 }, storage_faults: vec![], storage_latency_max_ms: rng.gen_range(3..40), storage_scan_latency_max_ms: 0 })
         .collect();
     let cfg = ClusterCfg {
         nodes,
@@ -608,6 +723,7 @@ pub fn gen_burst_scenario(rng: &mut rand::rngs::SmallRng) -> Scenario {
         repair_interval_ms: rng.gen_range(150..1_200),
         jitter_sites: if rng.gen_bool(0.3) { vec![("poller.handle_modified".to_string(), rng.gen_range(1..60))] } else { vec![] },
         hook_seed: rng.gen(),
+        real_membership: false,
     };
     let ids: Vec<u8> = cfg.nodes.iter().map(|n| n.id).collect();
     let writers: Vec<u8> = ids.iter().copied().filter(|_| rng.gen_bool(0.6)).collect();
@@ -646,6 +762,106 @@ pub fn gen_burst_scenario(rng: &mut rand::rngs::SmallRng) -> Scenario {
     Scenario { cfg, events, closing_seed: rng.gen(), closing_parallel: false, settle_ms: 0, closing_mode: "background".to_string() }
 }
 
+/// "Real membership" family: every node is built with the public API alone
+/// (`DatacakeNodeBuilder::connect` + `EventuallyConsistentStoreExtension`), membership comes from
+/// the gossip layer running over the simulated network, so link holds long enough for the failure
+/// detector, crashes, restarts and address moves reach the store as the membership changes a real
+/// deployment would see.
+pub fn gen_real_scenario(rng: &mut rand::rngs::SmallRng) -> Scenario {
+    let n = rng.gen_range(2..=4usize);
+    let dcs = rng.gen_range(1..=2usize);
+    let skewed = rng.gen_bool(0.3);
+    let nodes: Vec<NodeCfg> = (1..=n as u8)
+        .map(|id| NodeCfg {
+            id,
+            dc: format!("dc{}", rng.gen_range(0..dcs)),
+            skew_ms: if skewed { rng.gen_range(-120_000..120_000) } else { 0 },
+            storage_faults: if rng.gen_bool(0.1) { vec![(rng.gen_range(1..20), rng.gen_range(0..3))] } else { vec![] },
+            storage_latency_max_ms: if rng.gen_bool(0.4) { rng.gen_range(1..40) } else { 0 },
+            storage_scan_latency_max_ms: if rng.gen_bool(0.5) { rng.gen_range(5..150) } else { 0 },
+        })
+        .collect();
+    let mut jitter_sites = Vec::new();
+    for s in ["poller.handle_removals", "poller.handle_modified", "group.get_or_create", "distributor.execute_batch", "store.before_local_apply"] {
+        if rng.gen_bool(0.25) {
+            jitter_sites.push((s.to_string(), rng.gen_range(1..200)));
+        }
+    }
+    let cfg = ClusterCfg {
+        nodes,
+        tick_ms: *[1u64, 2].choose(rng).unwrap(),
+        latency_ms: (1, *[2u64, 10, 40].choose(rng).unwrap()),
+        net_seed: rng.gen(),
+        base_ms: rng.gen_range(1_000_000_000u64..60_000_000_000),
+        repair_interval_ms: 1_000,
+        jitter_sites,
+        hook_seed: rng.gen(),
+        real_membership: true,
+    };
+    let ids: Vec<u8> = cfg.nodes.iter().map(|n| n.id).collect();
+    let kss: Vec<String> = (0..rng.gen_range(1..=2)).map(|i| format!("ks{i}")).collect();
+    let nids = rng.gen_range(1..=5u64);
+    let span = rng.gen_range(8_000..90_000u64);
+    let levels = ["None", "One", "Two", "Quorum", "LocalQuorum", "All", "EachQuorum"];
+    let mut events = Vec::new();
+    for _ in 0..rng.gen_range(4..=24) {
+        let t = rng.gen_range(0..span);
+        let kind = ["put", "put", "put", "put_many", "del", "del", "del_many"].choose(rng).unwrap();
+        let cnt = if kind.ends_with("many") { rng.gen_range(1..=3) } else { 1 };
+        let mut idv: Vec<u64> = (0..cnt).map(|_| rng.gen_range(0..nids)).collect();
+        idv.sort();
+        idv.dedup();
+        let level = if rng.gen_bool(0.4) { "None" } else { levels[rng.gen_range(0..levels.len())] };
+        events.push(Ev::Op { t, node: *ids.choose(rng).unwrap(), spec: OpSpec { kind: kind.to_string(), ks: kss.choose(rng).unwrap().clone(), ids: idv, level: level.to_string() } });
+    }
+    if rng.gen_bool(0.6) {
+        for _ in 0..rng.gen_range(1..=2) {
+            let a = *ids.choose(rng).unwrap();
+            let mut b = *ids.choose(rng).unwrap();
+            if a == b {
+                b = ids[(ids.iter().position(|x| *x == a).unwrap() + 1) % ids.len()];
+            }
+            let t = rng.gen_range(0..span);
+            // short (nothing notices) or long enough for the failure detector to declare the peer dead
+            let d = if rng.gen_bool(0.5) { rng.gen_range(300..5_000) } else { rng.gen_range(25_000..70_000) };
+            events.push(Ev::Hold { t, a, b });
+            events.push(Ev::Release { t: t + d, a, b });
+        }
+    }
+    if rng.gen_bool(0.5) {
+        let node = *ids.choose(rng).unwrap();
+        let t = rng.gen_range(500..span);
+        let back = t + if rng.gen_bool(0.5) { rng.gen_range(200..5_000) } else { rng.gen_range(20_000..60_000) };
+        events.push(Ev::Crash { t, node });
+        if rng.gen_bool(0.6) {
+            // comes back under a new address: a new identity for the gossip layer
+            events.push(Ev::Move { t: back, node });
+        } else {
+            events.push(Ev::Restart { t: back, node });
+        }
+        // peers that re-dial while the node is starting up: earlier mutations re-sent over fresh
+        // connections in the first moments after the (re)start
+        if rng.gen_bool(0.6) {
+            for _ in 0..rng.gen_range(3..=14) {
+                let from = *ids.choose(rng).unwrap();
+                if from != node {
+                    events.push(Ev::Replay { t: back + rng.gen_range(0..700), from, nth: rng.gen_range(0..64), fresh: true });
+                }
+            }
+        }
+    }
+    if rng.gen_bool(0.3) {
+        for _ in 0..rng.gen_range(1..=3) {
+            events.push(Ev::Replay { t: rng.gen_range(300..span + 2_000), from: *ids.choose(rng).unwrap(), nth: rng.gen_range(0..64), fresh: false });
+        }
+    }
+    if rng.gen_bool(0.2) {
+        events.push(Ev::ClockJump { t: rng.gen_range(0..span), node: *ids.choose(rng).unwrap(), delta_ms: rng.gen_range(-120_000..120_000) });
+    }
+    events.sort_by_key(|e| e.t());
+    Scenario { cfg, events, closing_seed: rng.gen(), closing_parallel: false, settle_ms: 0, closing_mode: "background".to_string() }
+}
+
 pub fn cluster_components() -> Vec<(&'static str, &'static str)> {
     vec![
         ("datacake-eventual-consistency: store handle put/put_many/del/del_many, keyspace actors, KeyspaceGroup, distributor (1 s batches), poller + purge task, ConsistencyService/ReplicationService and their clients, membership consumer", "real"),
@@ -653,7 +869,7 @@ pub fn cluster_components() -> Vec<(&'static str, &'static str)> {
         ("datacake-rpc: rkyv framing + CRC, RpcClient, Server dispatch, hyper HTTP/2 client and server connections (crate feature `simulation`)", "real"),
         ("datacake-crdt OrSWotSet / HLCTimestamp", "real"),
         ("TCP/IP network", "simulated: turmoil 0.4.0 (vendored, 3-part patch), seeded latencies, hold/release, crash/bounce"),
-        ("chitchat gossip + failure detector, DatacakeNode builder", "stub: harness-supplied membership snapshots, node parts wired by verif::create_store / verif::new_handle"),
+        ("chitchat gossip + failure detector, DatacakeNode builder", "stub in most scenario families: harness-supplied membership snapshots, node parts wired by verif::create_store / verif::new_handle. Real in the real-membership family (1 case in 8 of C01; arms of C02, C16, C18): DatacakeNodeBuilder::connect + EventuallyConsistentStoreExtension (public API only), ChitchatNode, ChitchatTransport/ChitchatService, the vendored gossip crate with virtual time and seeded randomness"),
         ("Storage", "SimStorage (harness) outside the hosts: survives crashes, fault plan, virtual latency"),
         ("wall clock", "injected per node: simulated time + skew + jumps (hook H1)"),
         ("tokio", "real, one paused current_thread runtime per host"),
@@ -740,13 +956,14 @@ impl Check for C01 {
         "E2 cluster engine: 2-5 complete nodes as turmoil hosts (real store, RPC stack, clock, selector, membership watcher) over simulated TCP; SimStorage outside the hosts; harness-owned membership views"
     }
     fn rule(&self) -> &'static str {
-        "Cases: 2-5 nodes in 1-3 data centres, optional wall-clock skew up to +-10 min, 5-40 put/put_many/del/del_many at seeded nodes and times (a quarter aligned with the distributor's 1 s batch tick) with all eight consistency levels on 1-3 keyspaces and 1-6 ids (so writers collide); a seeded subset of fault kinds per run: link hold/release, node crash/restart with lagging or missing death/return notices at peers, a node coming back on another IP address (peers learn it as left+joined in one membership change), partial membership views (peers that get no batches), replayed replication messages (duplicate, late, reordered direct messages), clock jumps, storage failures and latency, cooperative delays at the two halves of a repair / keyspace creation / batch execution / between timestamping and local apply; background poller on (1-6 s) or off. Then quiescence is constructed (links released, nodes restarted and re-announced, views completed, all calls returned) and every node runs the real repair path (poll_keyspace -> get_state -> Diff -> MultiDel/fetch_docs+MultiSet) against every other node, in seeded order, optionally two at a time, each until the tracker reports nothing unsynced. Oracle: every node's store holds exactly the last-writer-wins live documents (id, bytes, timestamp) computed from the operations captured at their issuers' stores. Non-trivial = two origins wrote one (keyspace, id) AND at least one fault fired. Distinct = hash of all nodes' ordered storage-call sequences."
+        "Cases: 2-5 nodes in 1-3 data centres, optional wall-clock skew up to +-10 min, 5-40 put/put_many/del/del_many at seeded nodes and times (a quarter aligned with the distributor's 1 s batch tick) with all eight consistency levels on 1-3 keyspaces and 1-6 ids (so writers collide); a seeded subset of fault kinds per run: link hold/release, node crash/restart with lagging or missing death/return notices at peers, a node coming back on another IP address (peers learn it as left+joined in one membership change), partial membership views (peers that get no batches), replayed replication messages (duplicate, late, reordered direct messages), clock jumps, storage failures and latency, cooperative delays at the two halves of a repair / keyspace creation / batch execution / between timestamping and local apply; background poller on (1-6 s) or off. Then quiescence is constructed (links released, nodes restarted and re-announced, views completed, all calls returned) and every node runs the real repair path (poll_keyspace -> get_state -> Diff -> MultiDel/fetch_docs+MultiSet) against every other node, in seeded order, optionally two at a time, each until the tracker reports nothing unsynced. Oracle: every node's store holds exactly the last-writer-wins live documents (id, bytes, timestamp) computed from the operations captured at their issuers' stores. Non-trivial = two origins wrote one (keyspace, id) AND at least one fault fired. Distinct = hash of all nodes' ordered storage-call sequences. Real-membership family (1 case in 8): 2-4 nodes built with DatacakeNodeBuilder::connect + EventuallyConsistentStoreExtension alone; membership is whatever the gossip layer (vendored, virtual time, seeded) reports over the simulated network; 4-24 operations over 8-90 s; link holds either short or 25-70 s (long enough for the failure detector to declare the peer dead and the store to drop and re-create its pollers), crash + restart on the same or another address, earlier mutations re-sent over fresh connections in the first 700 ms after a (re)start, slow start-up scans, clock jumps. After the faults the harness waits (bounded, 240 simulated s) until every node's membership layer reports every running node, then gives the nodes' own replication cycles 14 simulated s; if the layer does not re-admit somebody the exchanges are driven explicitly instead."
     }
     fn assumptions(&self) -> Vec<String> {
         vec![
             "all operations lie within one forgiveness period (history <= 20 simulated minutes, skew <= 15 min; re-validated)".into(),
             "recoverable network faults only (hold/release, crash/restart, membership flaps): a black-holed established TCP connection never times out in turmoil and datacake's clients have no request timeout".into(),
-            "a restarted node is re-announced to its peers (left, then joined) before the closing phase, as chitchat eventually would; the simulation transport never re-dials a dead connection by itself".into(),
+            "stub-membership families: a restarted node is re-announced to its peers (left, then joined) before the closing phase, as chitchat eventually would; the simulation transport (datacake-rpc feature `simulation`) never re-dials a dead connection by itself".into(),
+            "real-membership family: the gossip crate is the vendored datacake-chitchat-fork 0.5.1 with replay patches only (virtual Instant, seeded generators, canonical/seeded set order); turmoil's accept loop was patched to drain stale SYNs (upstream handled one queued SYN per wake-up, so a listener behind a released link never caught up - that, not datacake, produced 'Failed to connect within deadline' forever)".into(),
             "storage faults are contract-conforming (a failing call reports what it applied)".into(),
         ]
     }
@@ -761,8 +978,11 @@ impl Check for C01 {
     }
     fn generate(&self, seed: u64, idx: u64, _tier: Tier) -> Value {
         let mut rng = rng_from(case_seed(seed, idx));
-        if idx % 4 == 3 {
-            return serde_json::to_value(gen_burst_scenario(&mut rng)).unwrap();
+        // scenario families, spread over all workers (worker i takes indexes i, i+16, ...)
+        match mix(0xFA41, idx) % 8 {
+            3 | 7 => return serde_json::to_value(gen_burst_scenario(&mut rng)).unwrap(),
+            5 => return serde_json::to_value(gen_real_scenario(&mut rng)).unwrap(),
+            _ => {},
         }
         let k = GenKnobs { max_nodes: 5, max_ops: 40, span_ms: 25_000, level_bias_none: 0.4 };
         serde_json::to_value(gen_cluster_scenario(&mut rng, &k)).unwrap()
